@@ -22,7 +22,11 @@ Proof.
   - apply IH.
 Qed.
 
-Lemma frag_ou_reset (init : option Q) z :
-  noise_ou_reset (match init with Some _ => true | None => false end) (match init with Some v => v | None => z end) z
+Lemma frag_ou_reset (b : bool) i z : noise_ou_reset b i z == (if b then i else z).
+Proof. unfold noise_ou_reset. destruct b; reflexivity. Qed.
+
+(* so reset() restores initial_noise when there is one and zeros otherwise: the model's reset value *)
+Lemma frag_ou_reset_model (init : option Q) z :
+  noise_ou_reset (match init with Some _ => true | None => false end) (match init with Some v => v | None => 0 end) z
   == match init with Some v => v | None => z end.
-Proof. destruct init; unfold noise_ou_reset; reflexivity. Qed.
+Proof. destruct init; apply frag_ou_reset. Qed.
